@@ -309,7 +309,7 @@ fn gen_items(r: &mut Rng, nvars: u64) -> (String, String, String, String) {
     let fns = ["cnt", "cnt", "cntd", "sum", "sum", "sumd", "avg", "avg", "avgd", "min", "min", "max", "max", "col", "cold", "cntv", "cntvd"];
     let mut aggs: Vec<String> = vec![];
     for _ in 0..r.range(1, 3) {
-        if r.chance(1, 40) {
+        if r.chance(1, 80) {
             aggs.push("cstar".into());
             continue;
         }
@@ -370,9 +370,27 @@ pub fn generate(seed: u64, cases: usize, out: &mut Vec<String>) {
         }
         let (na, ea) = (nodes_arg(&nodes), edges_arg(&edges));
         // ---- grouping / aggregates, GQL and Cypher
-        for _ in 0..3 {
-            let (start, hops, preds, _, _, _, _, _) = gen_query(&mut r);
-            let (items, ord, skip, lim) = gen_items(&mut r, nvars_of(&hops));
+        for i in 0..3 {
+            let (mut start, mut hops, mut preds, _, _, _, _, _) = gen_query(&mut r);
+            let (mut items, mut ord, mut skip, mut lim) = gen_items(&mut r, nvars_of(&hops));
+            if i == 2 && r.chance(1, 3) {
+                // counts over variables on a two-hop chain (the planner's factorized aggregate)
+                let lab = |r: &mut Rng| if r.chance(3, 4) { "*".to_string() } else { r.below(3).to_string() };
+                start = if r.chance(1, 2) { "*".to_string() } else { r.below(3).to_string() };
+                hops = (0..2)
+                    .map(|_| format!("{}/{}/{}", if r.chance(1, 2) { "*".to_string() } else { r.below(2).to_string() }, r.pick(&["o", "o", "i", "b"]), lab(&mut r)))
+                    .collect::<Vec<_>>()
+                    .join(",");
+                preds = match r.below(4) {
+                    0 => format!("c/0/{}/{}/I2", r.below(3), r.pick(&["ge", "ne", "lt"])),
+                    1 => format!("c/{}/{}/{}/I2", r.below(3), r.below(3), r.pick(&["ge", "ne", "lt"])),
+                    _ => "-".to_string(),
+                };
+                items = (0..r.range(1, 2)).map(|_| format!("{}:{}", r.pick(&["cntv", "cntvd", "cntvd"]), r.below(3))).collect::<Vec<_>>().join(",");
+                ord = "-".into();
+                skip = "-".into();
+                lim = "-".into();
+            }
             for lang in ["gql", "cypher"] {
                 if lang == "gql" && (preds.contains("z/") || preds.contains("y/")) {
                     continue;
